@@ -899,3 +899,88 @@ Fixpoint xevents (l : list xevent) : list (option event) :=
 (* is the owner i falsy right now? *)
 Definition falsy_now (x : xworld) (i : nat) : bool :=
   negb (truth_value (truth_get (x_truth x) i)).
+
+(* ------------------------------------------------------------------ *)
+(* 11. Class hierarchies: dir(cls), getattr(cls, n), redefinition       *)
+(* ------------------------------------------------------------------ *)
+
+(* What a class body binds a public or private name to:  name = tunable(..)
+   (the name is [d_attr d]) or  name = <anything that is not a tunable>  (a
+   number, a method, a property ...). *)
+Inductive member :=
+| MTun (d : decl)
+| MPlain (name : string).
+
+Definition member_name (m : member) : string :=
+  match m with MTun d => d_attr d | MPlain n => n end.
+
+(* vars(klass): the class's own namespace (one entry per name; the first
+   entry of a name is the one the namespace holds) *)
+Definition classbody := list member.
+
+Fixpoint body_get (b : classbody) (n : string) : option member :=
+  match b with
+  | [] => None
+  | m :: r => if String.eqb (member_name m) n then Some m else body_get r n
+  end.
+
+(* getattr(cls, n) for a name bound in the class bodies: type.__getattribute__
+   walks cls.__mro__ (the class itself first, then its bases in linearised
+   order) and takes the FIRST class whose namespace has n.  [mro] is
+   [vars(k) for k in cls.__mro__]. *)
+Fixpoint class_getattr (mro : list classbody) (n : string) : option member :=
+  match mro with
+  | [] => None
+  | b :: r => match body_get b n with
+              | Some m => Some m
+              | None => class_getattr r n
+              end
+  end.
+
+(* dir(cls): the names of all namespaces of the MRO, each once, sorted *)
+Fixpoint dedup (l : list string) : list string :=
+  match l with
+  | [] => []
+  | x :: r => if existsb (String.eqb x) r then dedup r else x :: dedup r
+  end.
+Fixpoint insert_sorted (x : string) (l : list string) : list string :=
+  match l with
+  | [] => [x]
+  | y :: r => if String.leb x y then x :: l else y :: insert_sorted x r
+  end.
+Fixpoint sort_names (l : list string) : list string :=
+  match l with
+  | [] => []
+  | x :: r => insert_sorted x (sort_names r)
+  end.
+Definition dir_names (mro : list classbody) : list string :=
+  sort_names (dedup (flat_map (map member_name) mro)).
+
+(* the head of the loop of setup_tunables:
+       for n in dir(cls):
+           prop = getattr(cls, n)
+           if not isinstance(prop, tunable): continue
+   i.e. per NAME the one object attribute lookup on the class finds; a
+   definition of the same name further down the MRO is shadowed, whether the
+   shadowing member is a tunable or not.  (The `n.startswith("_")` test is in
+   [setup_loop].) *)
+Definition class_members (mro : list classbody) : list decl :=
+  flat_map (fun n => match class_getattr mro n with
+                     | Some (MTun d) => [d]
+                     | _ => []
+                     end) (dir_names mro).
+
+(* setup_tunables(instance i of the class with that MRO, cname, prefix) *)
+Definition setup_class (i : nat) (mro : list classbody) (prefix : option string)
+           (cname : string) : op :=
+  Setup i (class_members mro) prefix cname.
+
+(* the class statements of the hierarchy: every tunable of every body is
+   created (tunable.__init__, __set_name__), the shadowed ones included *)
+Definition body_decls (b : classbody) : list decl :=
+  flat_map (fun m => match m with MTun d => [d] | MPlain _ => [] end) b.
+Definition hier_defined (mro : list classbody) : bool :=
+  forallb (fun b => match class_topics (body_decls b) with
+                    | Some _ => true
+                    | None => false
+                    end) mro.
